@@ -17,6 +17,20 @@
 // sends on the schedule channel and hands that string to every controller the way
 // hook.Manager.HandleScheduleEvent does (CanHandleEvent, then HandleEvent); TickAll does so
 // for every registered cron entry once.
+//
+// Coinciding firings (Start / Drain, file burst.go): the cron library runs every due job in a
+// goroutine of its own and all jobs send on ONE channel of capacity 1.  Start ns starts the
+// REAL job closures of the cron entries at the positions ns (repeats allowed) in goroutines
+// while nobody receives from Ch() and waits until each of them has returned or is parked
+// (goroutine state read from runtime.Stack; bounded wait, no fixed sleeps); after every
+// operation len(Ch()) and the number of parked job goroutines are reported.  Drain receives
+// from Ch() until every started job has returned and the channel is empty and dispatches
+// every string received like HandleScheduleEvent.  Other operations may come in between
+// (then the observations are taken without running any job: Entries is an exported field,
+// the cron entries are listed through the manager's *cron.Cron, reached by reflection; what
+// an entry sends is remembered from the last time its job was run alone, or asked at the
+// end of the case).  Stop calls sm.Stop() (context cancelled); jobs run after it are driven
+// with bounded receives.
 package c11
 
 import (
@@ -49,11 +63,12 @@ type Binding struct {
 }
 
 type Op struct {
-	Kind string `json:"kind"` // Add Remove Enable Disable Fire Tick TickAll
-	C    int    `json:"c"`      // Add/Remove/Fire: index into Input.Strings
+	Kind string `json:"kind"` // Add Remove Enable Disable Fire Tick TickAll Start Drain Stop
+	C    int    `json:"c"`    // Add/Remove/Fire: index into Input.Strings
 	I    int    `json:"i,omitempty"`
 	H    int    `json:"h"`
-	N    int    `json:"n,omitempty"` // Tick: position of the cron entry
+	N    int    `json:"n,omitempty"`  // Tick: position of the cron entry
+	Ns   []int  `json:"ns,omitempty"` // Start: positions of the cron entries whose jobs are started together
 }
 
 type Input struct {
@@ -92,6 +107,10 @@ type Obs struct {
 	Entries []EntryObs `json:"entries"`
 	Cron    []CronObs  `json:"cron"`
 	Fire    []FireObs  `json:"fire"`
+	Recv    []int      `json:"recv"`     // Tick/TickAll/Drain: what the consumer received (alphabet indices, sorted)
+	RecvStr []string   `json:"recv_str"` // the same as strings, in the order of arrival
+	ChLen   int        `json:"ch_len"`   // len(sm.Ch()) after the operation
+	Parked  int        `json:"parked"`   // job goroutines started and not returned (parked in their send)
 }
 type Observation struct {
 	Steps   []Obs    `json:"steps"`
@@ -164,17 +183,32 @@ func (in Input) str(c int) string {
 	return "bad-index-" + strconv.Itoa(c)
 }
 
+type cronRow struct {
+	id       int
+	fires    string
+	resolved bool
+}
+
 type rawStep struct {
 	entries []schedulemanager.VerifC11Entry
-	cron    []schedulemanager.VerifC11CronEntry
+	cron    []cronRow
 	fire    []FireObs
+	recv    []string
+	chlen   int
+	parked  int
 }
+
+const nothingSent = "<the job sent nothing>"
 
 func Run(in Input) Observation {
 	entry := func(c, i int) smtypes.ScheduleEntry {
 		return smtypes.ScheduleEntry{Crontab: in.str(c), Id: strconv.Itoa(i)}
 	}
 	sm := schedulemanager.NewScheduleManager(context.Background(), log.NewNop())
+	cr := cronOf(sm)
+	ch := sm.Ch()
+	js := newJobSet()
+	stopped := false
 	type ctl = controller.ScheduleBindingsController
 	var ctls []ctl
 	for _, bs := range in.Hooks {
@@ -232,9 +266,102 @@ func Run(in Input) Observation {
 		}
 		return fire
 	}
+	// nothing sent and not received, no job goroutine alive
+	idle := func() bool { return js.outstanding() == 0 && len(ch) == 0 }
+	// what a cron entry sends, learnt by running its job alone; the job values are kept so
+	// that an entry removed meanwhile can still be asked at the end of the case
+	fires := map[int]string{}
+	jobs := map[int]cron.Job{}
+	// one job run alone on the idle channel, what it sends received at once (bounded)
+	// (bounded wait: generous the first time, short once a job of this case has sent nothing)
+	patience := time.Second
+	fireAlone := func(job cron.Job) (string, bool) {
+		go job.Run()
+		select {
+		case s := <-ch:
+			return s, true
+		case <-time.After(patience):
+			patience = 50 * time.Millisecond
+			return "", false
+		}
+	}
+	snapshot := func() ([]schedulemanager.VerifC11Entry, []cronRow) {
+		for _, e := range cr.Entries() {
+			jobs[int(e.ID)] = e.Job
+		}
+		if idle() && !stopped {
+			// every entry's job is run once and what it sends is received right away
+			ents, ce := sm.VerifC11Snapshot()
+			rows := []cronRow{}
+			for _, e := range ce {
+				fires[e.EntryID] = e.Fires
+				rows = append(rows, cronRow{id: e.EntryID, fires: e.Fires, resolved: true})
+			}
+			return ents, rows
+		}
+		// firings are waiting (or the context is cancelled): look without running a job
+		ents := make([]schedulemanager.VerifC11Entry, 0, len(sm.Entries))
+		for crontab, e := range sm.Entries {
+			ids := make([]string, 0, len(e.Ids))
+			for id := range e.Ids {
+				ids = append(ids, id)
+			}
+			sort.Strings(ids)
+			ents = append(ents, schedulemanager.VerifC11Entry{Crontab: crontab, EntryID: int(e.EntryID), Ids: ids})
+		}
+		sort.Slice(ents, func(i, j int) bool { return ents[i].Crontab < ents[j].Crontab })
+		rows := []cronRow{}
+		for _, e := range cr.Entries() {
+			id := int(e.ID)
+			if f, ok := fires[id]; ok {
+				rows = append(rows, cronRow{id: id, fires: f, resolved: true})
+			} else if idle() {
+				f, ok := fireAlone(e.Job)
+				if !ok {
+					f = nothingSent
+				}
+				fires[id] = f
+				rows = append(rows, cronRow{id: id, fires: f, resolved: true})
+			} else {
+				rows = append(rows, cronRow{id: id})
+			}
+		}
+		return ents, rows
+	}
+	// the consumer catches up: everything received is dispatched in the order of arrival
+	catchUp := func(st *rawStep) {
+		got, _ := js.drain(ch, 2*time.Second)
+		for _, s := range got {
+			dispatch(s, st.fire)
+		}
+		st.recv = append(st.recv, got...)
+	}
+	// the jobs of the entries at the given positions (nil = all) are run one at a time, what
+	// each sends is received at once and dispatched
+	tick := func(st *rawStep, only int) {
+		if !stopped {
+			_, ce := sm.VerifC11Snapshot()
+			for pos, e := range ce {
+				if only < 0 || only == pos {
+					dispatch(e.Fires, st.fire)
+					st.recv = append(st.recv, e.Fires)
+				}
+			}
+			return
+		}
+		for pos, e := range cr.Entries() {
+			if only < 0 || only == pos {
+				if s, ok := fireAlone(e.Job); ok {
+					dispatch(s, st.fire)
+					st.recv = append(st.recv, s)
+				}
+			}
+		}
+	}
 	var raw []rawStep
 	for _, op := range in.Ops {
-		st := rawStep{fire: []FireObs{}}
+		st := rawStep{fire: []FireObs{}, recv: []string{}}
+		unsettled := 0
 		switch op.Kind {
 		case "Add":
 			sm.Add(entry(op.C, op.I))
@@ -254,24 +381,70 @@ func Run(in Input) Observation {
 				st.fire = append(st.fire, f)
 			}
 		case "Tick":
-			// the job of the n-th registered cron entry runs; what it sends is dispatched
-			_, cronEntries := sm.VerifC11Snapshot()
-			if op.N >= 0 && op.N < len(cronEntries) {
+			// (the consumer first catches up with firings that still wait;) the job of the n-th
+			// registered cron entry runs; what it sends is dispatched
+			if op.N >= 0 && op.N < len(cr.Entries()) {
 				st.fire = blank()
-				dispatch(cronEntries[op.N].Fires, st.fire)
+				if !idle() {
+					catchUp(&st)
+				}
+				tick(&st, op.N)
 			}
 		case "TickAll":
-			_, cronEntries := sm.VerifC11Snapshot()
 			st.fire = blank()
-			for _, e := range cronEntries {
-				dispatch(e.Fires, st.fire)
+			if !idle() {
+				catchUp(&st)
 			}
+			tick(&st, -1)
+		case "Start":
+			// the jobs fire at the same instant: each in a goroutine of its own, nobody receives
+			ents := cr.Entries()
+			for _, n := range op.Ns {
+				if n >= 0 && n < len(ents) {
+					js.start(ents[n].Job)
+				}
+			}
+			_, unsettled = js.settle(time.Second)
+		case "Drain":
+			st.fire = blank()
+			catchUp(&st)
+		case "Stop":
+			sm.Stop()
+			stopped = true
 		}
 		for h := range st.fire {
 			stable(&st.fire[h])
 		}
-		st.entries, st.cron = sm.VerifC11Snapshot()
+		st.chlen, st.parked = len(ch), js.outstanding()
+		if unsettled > 0 { // a started job neither returned nor parked in a send
+			st.parked = anomaly + unsettled
+		}
+		st.entries, st.cron = snapshot()
 		raw = append(raw, st)
+	}
+	// leave nothing behind (the child process runs many cases), then ask the entries that
+	// were registered while firings were waiting what they send
+	if !idle() {
+		js.drain(ch, 2*time.Second)
+	}
+	for k := range raw {
+		for j := range raw[k].cron {
+			row := &raw[k].cron[j]
+			if row.resolved {
+				continue
+			}
+			f, ok := fires[row.id]
+			if !ok {
+				if job := jobs[row.id]; job != nil && idle() {
+					f, ok = fireAlone(job)
+				}
+				if !ok {
+					f = nothingSent
+				}
+				fires[row.id] = f
+			}
+			row.fires, row.resolved = f, true
+		}
 	}
 	// the alphabet: the case's strings and whatever else the implementation used
 	out := Observation{Extra: []string{}, Invalid: []int{}}
@@ -298,7 +471,10 @@ func Run(in Input) Observation {
 			add(e.Crontab)
 		}
 		for _, e := range st.cron {
-			add(e.Fires)
+			add(e.fires)
+		}
+		for _, s := range st.recv {
+			add(s)
 		}
 	}
 	for i, s := range alphabet {
@@ -307,7 +483,7 @@ func Run(in Input) Observation {
 		}
 	}
 	for _, st := range raw {
-		o := Obs{Entries: []EntryObs{}, Cron: []CronObs{}, Fire: st.fire}
+		o := Obs{Entries: []EntryObs{}, Cron: []CronObs{}, Fire: st.fire, Recv: []int{}, RecvStr: st.recv, ChLen: st.chlen, Parked: st.parked}
 		for c, s := range alphabet {
 			eo := EntryObs{C: c, Ids: []int{}}
 			for _, e := range st.entries {
@@ -327,8 +503,12 @@ func Run(in Input) Observation {
 			o.Entries = append(o.Entries, eo)
 		}
 		for _, e := range st.cron {
-			o.Cron = append(o.Cron, CronObs{ID: e.EntryID, C: index[e.Fires], Sent: e.Fires})
+			o.Cron = append(o.Cron, CronObs{ID: e.id, C: index[e.fires], Sent: e.fires})
 		}
+		for _, s := range st.recv {
+			o.Recv = append(o.Recv, index[s])
+		}
+		sort.Ints(o.Recv) // the order of arrival is the runtime's choice (kept in RecvStr for the reader)
 		out.Steps = append(out.Steps, o)
 	}
 	return out
@@ -356,6 +536,17 @@ func coqOp(o Op) string {
 		return fmt.Sprintf("OTick %d", o.N)
 	case "TickAll":
 		return "OTickAll"
+	case "Start":
+		return fmt.Sprintf("OStart %s", core.CoqList(o.Ns, func(n int) string {
+			if n < 0 { // no such position either way
+				n = anomaly
+			}
+			return core.CoqN(n)
+		}))
+	case "Drain":
+		return "ODrain"
+	case "Stop":
+		return "OStop"
 	}
 	return fmt.Sprintf("OFire %s", sname(o.C))
 }
@@ -374,7 +565,7 @@ func coqObs(o Obs) string {
 	fi := core.CoqList(o.Fire, func(f FireObs) string {
 		return fmt.Sprintf("(%s, %s)", core.CoqBool(f.Can), core.CoqList(f.Infos, coqInfo))
 	})
-	return fmt.Sprintf("mkObs %s %s %s", ents, cr, fi)
+	return fmt.Sprintf("mkObs %s %s %s %s %d %d", ents, cr, fi, core.CoqList(o.Recv, sname), o.ChLen, o.Parked)
 }
 
 // every index a case refers to must have a name bound by the lets
@@ -530,6 +721,7 @@ func Render(in Input, obs *Observation, crash string) core.Case {
 		}
 	}
 	c.Tags = append(c.Tags, fmt.Sprintf("max-cron-entries:%d", maxCron))
+	c.Tags = append(c.Tags, concurrencyTags(in, steps)...)
 	if hadInfos {
 		c.Tags = append(c.Tags, "firing-with-tasks")
 	}
@@ -538,6 +730,105 @@ func Render(in Input, obs *Observation, crash string) core.Case {
 	}
 	c.Nontrivial = len(in.Ops) >= 3 && len(kinds) >= 2 && hadCron
 	return c
+}
+
+// concurrencyTags: which of the coinciding-firings situations a case contains
+func concurrencyTags(in Input, steps []Obs) []string {
+	tags := map[string]bool{}
+	stopped, waiting, dirty := false, false, false
+	maxParked := 0
+	for k, o := range in.Ops {
+		var cronBefore []CronObs
+		if k > 0 && k-1 < len(steps) {
+			cronBefore = steps[k-1].Cron
+		}
+		switch o.Kind {
+		case "Stop":
+			stopped = true
+		case "Start":
+			sent := map[int]int{}
+			n := 0
+			for _, pos := range o.Ns {
+				if pos >= 0 && pos < len(cronBefore) {
+					sent[cronBefore[pos].C]++
+					n++
+				}
+			}
+			if n >= 2 {
+				tags["concurrent:jobs-started-together>=2"] = true
+			}
+			if len(sent) >= 2 {
+				tags["concurrent:different-crontabs-coincide"] = true
+			}
+			if len(sent) >= 3 {
+				tags["concurrent:three-or-more-crontabs-coincide"] = true
+			}
+			for _, m := range sent {
+				if m >= 2 {
+					tags["concurrent:same-crontab-fires-twice"] = true
+				}
+			}
+			if waiting && n > 0 {
+				tags["concurrent:jobs-started-while-others-wait"] = true
+			}
+			if stopped && n > 0 {
+				tags["stop:jobs-started-after-stop"] = true
+			}
+		case "Tick", "TickAll", "Drain":
+			if waiting && k < len(steps) {
+				tags["concurrent:consumer-catches-up:"+o.Kind] = true
+				tasks := false
+				for _, f := range steps[k].Fire {
+					if len(f.Infos) > 0 {
+						tasks = true
+					}
+				}
+				if tasks {
+					tags["concurrent:catch-up-with-tasks"] = true
+				}
+				if stopped {
+					tags["concurrent:catch-up-not-judged(manager-stopped)"] = true
+				} else if dirty {
+					tags["concurrent:catch-up-not-judged(enable/disable-meanwhile)"] = true
+				} else {
+					tags["concurrent:catch-up-judged-by-spec"] = true
+				}
+			}
+			if stopped && o.Kind != "Drain" {
+				tags["stop:job-run-after-stop"] = true
+			}
+		case "Enable", "Disable":
+			if waiting {
+				dirty = true
+				tags["concurrent:enable/disable-while-firings-wait"] = true
+			}
+		case "Add", "Remove":
+			if waiting {
+				tags["concurrent:add/remove-while-firings-wait"] = true
+			}
+		}
+		if k < len(steps) {
+			waiting = steps[k].ChLen > 0 || steps[k].Parked > 0
+			if !waiting {
+				dirty = false
+			}
+			if steps[k].Parked > maxParked && steps[k].Parked < anomaly {
+				maxParked = steps[k].Parked
+			}
+		}
+	}
+	if maxParked > 0 {
+		tags[fmt.Sprintf("concurrent:max-goroutines-parked-in-send:%d", maxParked)] = true
+	}
+	if len(steps) > 0 && (steps[len(steps)-1].ChLen > 0 || steps[len(steps)-1].Parked > 0) {
+		tags["concurrent:case-ends-with-firings-waiting"] = true
+	}
+	var res []string
+	for t := range tags {
+		res = append(res, t)
+	}
+	sort.Strings(res)
+	return res
 }
 
 // ---- generation ----
@@ -640,29 +931,103 @@ func (g *gen) hooks(collide bool, invalidPct, nValid, nAll int, focus []int) [][
 	return hooks
 }
 
+func (g *gen) positions() []int {
+	n := 1 + g.r.Intn(4)
+	ns := []int{}
+	for k := 0; k < n; k++ {
+		p := g.r.Intn(4)
+		if g.r.Chance(5) {
+			p = 4 + g.r.Intn(3) // mostly no such cron entry
+		}
+		ns = append(ns, p)
+	}
+	return ns
+}
+
 func (g *gen) ops(n, nHooks, nStrings int) []Op {
 	var ops []Op
 	for len(ops) < n {
 		k := g.r.Intn(100)
 		c, i, h := g.r.Intn(nStrings), 1+g.r.Intn(4), g.r.Intn(nHooks)
 		switch {
-		case k < 22:
+		case k < 19:
 			ops = append(ops, Op{Kind: "Add", C: c, I: i})
-		case k < 44:
+		case k < 38:
 			ops = append(ops, Op{Kind: "Remove", C: c, I: i})
-		case k < 59:
+		case k < 52:
 			ops = append(ops, Op{Kind: "Enable", H: h})
-		case k < 70:
+		case k < 61:
 			ops = append(ops, Op{Kind: "Disable", H: h})
-		case k < 82:
+		case k < 71:
 			ops = append(ops, Op{Kind: "Fire", C: c})
-		case k < 90:
+		case k < 78:
 			ops = append(ops, Op{Kind: "Tick", N: g.r.Intn(4)})
-		default:
+		case k < 85:
 			ops = append(ops, Op{Kind: "TickAll"})
+		case k < 93:
+			ops = append(ops, Op{Kind: "Start", Ns: g.positions()})
+		case k < 99:
+			ops = append(ops, Op{Kind: "Drain"})
+		default:
+			ops = append(ops, Op{Kind: "Stop"})
 		}
 	}
 	return ops
+}
+
+// coinciding: a case about firings that coincide while the consumer is busy: the hooks are
+// enabled (and some pairs added directly) so that several cron entries exist, then rounds of
+// Start (2-4 jobs together), sometimes operations while the firings wait, and a catching-up
+// (Drain, or Tick / TickAll which catch up first)
+func (g *gen) coinciding(maxLen int) Input {
+	in := Input{}
+	var focus []int
+	in.Strings, _, focus = g.table(g.r.Chance(30), 0)
+	for len(in.Hooks) == 0 || g.totalBindings(in.Hooks) == 0 {
+		in.Hooks = g.hooks(false, 0, len(in.Strings), len(in.Strings), focus)
+	}
+	for h := range in.Hooks {
+		if g.r.Chance(85) {
+			in.Ops = append(in.Ops, Op{Kind: "Enable", H: h})
+		}
+	}
+	for k := g.r.Intn(3); k > 0; k-- {
+		in.Ops = append(in.Ops, Op{Kind: "Add", C: g.r.Intn(len(in.Strings)), I: 1 + g.r.Intn(4)})
+	}
+	if g.r.Chance(8) {
+		in.Ops = append(in.Ops, Op{Kind: "Stop"})
+	}
+	rounds := 1 + g.r.Intn(3)
+	for r := 0; r < rounds && len(in.Ops) < maxLen; r++ {
+		ns := g.positions()
+		for len(ns) < 2 {
+			ns = append(ns, g.r.Intn(4))
+		}
+		in.Ops = append(in.Ops, Op{Kind: "Start", Ns: ns})
+		if g.r.Chance(35) { // while the firings wait
+			in.Ops = append(in.Ops, g.ops(1+g.r.Intn(2), len(in.Hooks), len(in.Strings))...)
+		}
+		switch k := g.r.Intn(10); {
+		case k < 7:
+			in.Ops = append(in.Ops, Op{Kind: "Drain"})
+		case k < 8:
+			in.Ops = append(in.Ops, Op{Kind: "TickAll"})
+		case k < 9:
+			in.Ops = append(in.Ops, Op{Kind: "Tick", N: g.r.Intn(3)})
+		} // else: the next round starts while these still wait
+		if g.r.Chance(30) {
+			in.Ops = append(in.Ops, g.ops(1, len(in.Hooks), len(in.Strings))...)
+		}
+	}
+	return in
+}
+
+func (g *gen) totalBindings(hooks [][]Binding) int {
+	n := 0
+	for _, bs := range hooks {
+		n += len(bs)
+	}
+	return n
 }
 
 func (g *gen) history(maxLen int, malformed bool) Input {
@@ -690,6 +1055,13 @@ func Corpus() []Input {
 	f := func(c int) Op { return Op{Kind: "Fire", C: c} }
 	tick := func(n int) Op { return Op{Kind: "Tick", N: n} }
 	all := Op{Kind: "TickAll"}
+	start := func(ns ...int) Op { return Op{Kind: "Start", Ns: ns} }
+	drain := Op{Kind: "Drain"}
+	stop := Op{Kind: "Stop"}
+	// two hooks that share no crontab, and a third one on a third crontab
+	hA := []Binding{{Id: 11, Crontab: 0, Name: 101, Snaps: []int{}}}
+	hB := []Binding{{Id: 21, Crontab: 1, Name: 201, Group: 5, AF: true, Snaps: []int{101}, Queue: 2}}
+	hC := []Binding{{Id: 31, Crontab: 2, Name: 301, Snaps: []int{}, Queue: 1}, {Id: 32, Crontab: 0, Name: 302, Snaps: []int{102}}}
 	// indices 0..3 of the first table play the part of the former crontab numbers 1..4
 	base := []string{"* * * * *", "*/5 * * * *", "0 * * * *", "not a crontab"}
 	bs := []Binding{{Id: 11, Crontab: 0, Name: 101, Snaps: []int{}}, {Id: 12, Crontab: 1, Name: 102, Group: 5, AF: true, Snaps: []int{101}, Queue: 3},
@@ -726,7 +1098,53 @@ func Corpus() []Input {
 			Ops: []Op{a(1, 1), a(0, 1), a(2, 1), all, en(0), all, f(1), r(0, 1), di(0), all}},
 		// a position that has no cron entry
 		{Strings: base, Hooks: [][]Binding{bs}, Ops: []Op{tick(0), all, en(0), tick(5), tick(2)}},
+		// ---- firings that coincide while the consumer is busy ----
+		// two hooks on different crontabs, both fire at the same instant
+		{Strings: base, Hooks: [][]Binding{hA, hB}, Ops: []Op{en(0), en(1), start(0, 1), drain}},
+		// the example ex_burst of C11_Properties.v: one crontab fires twice, another once
+		{Strings: base, Hooks: [][]Binding{hA, hB}, Ops: []Op{en(0), en(1), start(0, 1, 0), drain}},
+		// three crontabs coincide, one of them shared by two hooks; then once more
+		{Strings: base, Hooks: [][]Binding{hA, hB, hC}, Ops: []Op{en(0), en(1), en(2), start(0, 1, 2), drain, start(2, 1, 0, 1), drain, all}},
+		// a single job: nothing parks; jobs started while another firing still waits; Tick / TickAll catch up first
+		{Strings: base, Hooks: [][]Binding{hA, hB}, Ops: []Op{en(0), en(1), start(1), start(0), start(0, 1), tick(0), start(1, 0), all, drain}},
+		// while firings wait: the crontab of a waiting firing loses its last binding, a hook is disabled, another enabled
+		{Strings: base, Hooks: [][]Binding{hA, hB, hC}, Ops: []Op{en(0), en(1), start(0, 1), di(1), en(2), a(2, 1), r(2, 1), f(1), drain, start(0, 1), drain}},
+		// positions without a cron entry, nothing started, draining an idle channel
+		{Strings: base, Hooks: [][]Binding{hA}, Ops: []Op{drain, start(), start(0), drain, en(0), start(3, 0, 7), start(5), drain, drain}},
+		// direct Add only (no hook handles the firings): the strings still arrive, each once
+		{Strings: base, Hooks: [][]Binding{{}}, Ops: []Op{a(0, 1), a(1, 1), a(2, 2), start(0, 1, 2, 0), drain, r(1, 1), start(1, 1), drain}},
+		// the manager's context is cancelled: jobs run afterwards send all the same
+		{Strings: base, Hooks: [][]Binding{hA, hB}, Ops: []Op{en(0), en(1), stop, start(0, 1), drain, tick(1), all, a(2, 1), start(2, 0), en(1), drain}},
+		// a case that ends with firings still waiting
+		{Strings: sp[:2], Hooks: [][]Binding{{{Id: 11, Crontab: 0, Name: 101, Snaps: []int{}}}, {{Id: 21, Crontab: 1, Name: 201, Snaps: []int{}, Queue: 1}}},
+			Ops: []Op{en(0), en(1), start(0, 1, 1), a(0, 9)}},
 	}
+}
+
+// exhaustiveBurst: every sequence of <= maxLen operations over two hooks on two different
+// crontabs, with coinciding firings and catching-up
+func exhaustiveBurst(maxLen int) []Input {
+	tbl := []string{"* * * * *", "*/5 * * * *"}
+	hooks := [][]Binding{{{Id: 1, Crontab: 0, Name: 101, Snaps: []int{}}}, {{Id: 3, Crontab: 1, Name: 103, Group: 5, AF: true, Snaps: []int{101}, Queue: 1}}}
+	alpha := []Op{
+		{Kind: "Enable", H: 0}, {Kind: "Enable", H: 1}, {Kind: "Disable", H: 1}, {Kind: "Add", C: 1, I: 2},
+		{Kind: "Start", Ns: []int{0, 1}}, {Kind: "Start", Ns: []int{1, 1, 0}}, {Kind: "Drain"}, {Kind: "TickAll"},
+	}
+	var out []Input
+	var rec func(ops []Op)
+	rec = func(ops []Op) {
+		if len(ops) > 0 {
+			out = append(out, Input{Strings: tbl, Hooks: hooks, Ops: append([]Op{}, ops...)})
+		}
+		if len(ops) >= maxLen {
+			return
+		}
+		for _, o := range alpha {
+			rec(append(append([]Op{}, ops...), o))
+		}
+	}
+	rec(nil)
+	return out
 }
 
 func exhaustive(maxLen int) []Input {
@@ -771,6 +1189,8 @@ func Gen(r *core.Rng, tier string) ([]core.In[Input], bool) {
 	for i := 0; i < nRandom; i++ {
 		if i%10 == 9 {
 			ins = append(ins, core.In[Input]{Input: g.history(maxLen, true), Stream: "malformed"})
+		} else if i%5 == 2 {
+			ins = append(ins, core.In[Input]{Input: g.coinciding(maxLen), Stream: "coinciding"})
 		} else {
 			ins = append(ins, core.In[Input]{Input: g.history(maxLen, false), Stream: "random"})
 		}
@@ -779,10 +1199,16 @@ func Gen(r *core.Rng, tier string) ([]core.In[Input], bool) {
 		for _, in := range exhaustive(5) {
 			ins = append(ins, core.In[Input]{Input: in, Stream: "exhaustive"})
 		}
+		for _, in := range exhaustiveBurst(5) {
+			ins = append(ins, core.In[Input]{Input: in, Stream: "exhaustive-coinciding"})
+		}
 	}
 	if tier == "search" {
 		for _, in := range exhaustive(4) {
 			ins = append(ins, core.In[Input]{Input: in, Stream: "exhaustive"})
+		}
+		for _, in := range exhaustiveBurst(4) {
+			ins = append(ins, core.In[Input]{Input: in, Stream: "exhaustive-coinciding"})
 		}
 	}
 	return ins, false
@@ -795,14 +1221,14 @@ var Driver = core.Driver[Input, Observation]{
 			"operations Add/Remove of (crontab,id) over the table x 4 ids directly on the manager, Enable/Disable of a hook's bindings, Fire of a string (CanHandleEvent/HandleEvent of every controller), " +
 			"Tick n (the job of the n-th registered cron entry is run, what it sends on the channel is dispatched like hook.Manager.HandleScheduleEvent does), TickAll (every registered cron entry once); " +
 			"after each operation: Entries, the cron entries registered and the string each sends when its job is run (strings not in the table are appended to it); the scheduler is never started; " +
-			"streams: corpus, random (length <=20, quick), malformed (1-2 unparsable strings, some unparsable only because of whitespace such as '@hourly '; binding ids shared with the direct calls or duplicated), " +
+			"streams: corpus, random (length <=20, quick; 8% Start, 6% Drain, 1% Stop), coinciding (every fifth case: hooks enabled, 1-3 rounds of Start of >=2 jobs / operations meanwhile in 35% / Drain, TickAll, Tick or nothing; tags concurrent:*, stop:*), malformed (1-2 unparsable strings, some unparsable only because of whitespace such as '@hourly '; binding ids shared with the direct calls or duplicated), " +
 			"exhaustive (thorough: every sequence of <=5 operations over 10 operations on 2 spellings of one schedule x 2 ids and one hook); " +
 			"non-trivial = >=3 operations of >=2 kinds with a cron entry registered at some point; distinct = distinct input text"},
 	Gen: Gen, Run: Run, Render: Render, PerShard: 1000, Workers: 8, CaseTimout: 10 * time.Second,
 	Extra: func() map[string]any {
 		return map[string]any{
 			"exhaustive_scope": "thorough: sum_{k=1..5} 10^k = 111110 operation sequences",
-			"not_driven":       "the cron library's clock (entries are fired by running their job directly), hook.Manager.HandleScheduleEvent itself (its loop - CanHandleEvent then HandleEvent per hook - is replayed by the driver on the real controllers) and the task construction in operator.go:163-191 (modelled as task_of_info, not executed)",
+			"not_driven":       "the cron library's clock and its `go e.Job.Run()` (entries are fired by running their real job closure directly, alone or several together in goroutines started by the harness), the events handler's receive loop (the harness is the consumer of Ch()), hook.Manager.HandleScheduleEvent itself (its loop - CanHandleEvent then HandleEvent per hook - is replayed by the driver on the real controllers) and the task construction in operator.go:163-191 (modelled as task_of_info, not executed)",
 		}
 	},
 }
